@@ -161,6 +161,12 @@ class PInterp(FHInterp):
             if isinstance(lst, Opq) and lst.tag == "listof" and as_pv(lst.args[0]) is not None and as_lin_val(axis) == Lin.c(1):
                 return as_pv(lst.args[0]).then("concat(axis=1)")
             return Opq("concat", [lst, axis])
+        if ext == "numpy.array_equal" and len(args) == 2:
+            return Opq("same-elements", [self.undelegate(args[0]), self.undelegate(args[1])])
+        if ext == "numpy.isin" and len(args) == 2 and not kwargs:
+            return Opq("elements-in", [self.undelegate(args[0]), self.undelegate(args[1])])
+        if ext in ("numpy.all", "builtins.all") and len(args) == 1 and isinstance(args[0], Opq) and args[0].tag == "elements-in":
+            return Opq("subset", args[0].args)
         if ext == "numpy.zeros" and len(args) == 1 and as_lin_val(args[0]) is not None:
             return Arr("zeros@%d" % call.lineno, as_lin_val(args[0]), "array")
         if ext in ("numpy.column_stack",) and args:
@@ -179,6 +185,10 @@ class PInterp(FHInterp):
                 pr = Pred(recv, bound, args, call)
                 self.note_event({"kind": "predict", "val": pr, "node": call, "func": frame.func, "args": args, "kwargs": kwargs})
                 return pr
+            if meth == "all" and not args and isinstance(recv, Opq) and recv.tag == "elements-in":
+                return Opq("subset", recv.args)
+            if meth == "equals" and len(args) == 1 and (self.is_fh(recv) or isinstance(recv, Vec)):
+                return Opq("same-elements", [self.undelegate(recv), self.undelegate(args[0])])
             if meth == "isin" and len(args) == 1:
                 self.note_event({"kind": "isin", "recv": recv, "arg": args[0], "node": call, "func": frame.func})
                 return Opq("isin", [recv, args[0]])
@@ -847,6 +857,9 @@ def rule_r2(ctx, repo):
                    no_inline=("_predict_last_window",))
     r2_dispatch(ctx, repo, bw)
     r2_stored_horizon(ctx, repo)
+    # model conformance: the conversions interpreted here are what callers get (no memoisation under an incomplete key)
+    from .c02 import rule_decorators
+    rule_decorators(ctx, repo, rule="R2")
     poly = repo.cls("sktime/forecasting/trend.py:PolynomialTrendForecaster")
     judge_site(ctx, repo, poly, "_predict", lambda fh: {"fh": fh, "return_pred_int": K(False), "X": K(None)})
     stack = repo.cls("sktime/forecasting/compose/_stack.py:StackingForecaster")
@@ -987,7 +1000,33 @@ def r2_stored_horizon(ctx, repo):
                     ctx.violation("R2", cons, "the requested horizon is not remembered", loc)
                     continue
                 if not stores:
-                    ctx.ok("R2", cons, "horizon of fit is kept (the new one is only compared)", loc, nontrivial=False)
+                    # the horizon of fit is kept and predict() answers for it: a horizon given now may only pass if it *is*
+                    # the fitted one -- decided from the conditions assumed on each accepting path
+                    if not rets:
+                        ctx.ok("R2", cons, "a horizon given after fit is refused on every path", loc)
+                        continue
+                    gv, pv_ = it.undelegate(want), it.undelegate(prev)
+                    for s_, _ in rets:
+                        conds = [(c, t) for c, t, _ in it.path_of(s_)
+                                 if isinstance(c, Opq) and c.tag in ("same-elements", "subset") and len(c.args) == 2]
+                        eq = [(c, t) for c, t in conds if c.tag == "same-elements" and t and
+                              ((c.args[0] == gv and c.args[1] == pv_) or (c.args[0] == pv_ and c.args[1] == gv))]
+                        weaker = [(c, t) for c, t in conds if c.tag == "subset" and t]
+                        other = [c for c, t, _ in it.path_of(s_) if value_mentions(c, "fh_fit") and not
+                                 (isinstance(c, Opq) and c.tag in ("same-elements", "subset"))]
+                        if eq:
+                            ctx.ok("R2", cons, "a horizon given after fit passes only if it equals the fitted one (which predict uses)", loc)
+                        elif weaker:
+                            ctx.violation("R2", cons, "a horizon given after fit passes if its steps are merely *contained* in the fitted "
+                                          "horizon (%r); it is then ignored and predict answers for the fitted horizon: more values than "
+                                          "requested, labelled with steps that were not requested" % (weaker[0][0],), loc,
+                                          witness={"history": "fit(y, fh=[1, 2, 3, 4]); predict(fh=[2])"})
+                        elif other:
+                            ctx.undecided("R2", cons, "acceptance condition for a horizon given after fit not understood: %r" % (other,), loc)
+                        else:
+                            ctx.violation("R2", cons, "a horizon given after fit is accepted without being compared with the fitted one and "
+                                          "then ignored: predict answers for the fitted horizon, not the requested one", loc,
+                                          witness={"history": "fit(y, fh=[1, 2]); predict(fh=[3])"})
                     continue
                 for e in stores:
                     v = e["val"]
